@@ -257,6 +257,9 @@ def member_input(m):
 
 def classify(hexcfg, m):
     own_tf = m["tf"] is not None and m["tf"] != hexcfg.get("timeframe")
+    if hexcfg.get("candles_lifespan") and m["tf"] is not None:
+        # a member with a timeframe gets its own manager, seeded from the already trimmed base candles
+        return "lifespan-derived-timeframe"
     if hexcfg.get("candlestick_type") and own_tf:
         return "ha-derived-timeframe"
     if hexcfg.get("candles_lifespan") and own_tf:
